@@ -1,12 +1,23 @@
 #!/bin/sh
 # Mutation matrix: every mutant of the repository's hand-written sources (tools/mutate) is built, run against the repository's own
-# test suite and, if it survives, analysed by all 17 static checks. Writes /verif/mutation/results.txt.
+# test suite and, if it survives, analysed by all 17 static checks. Writes /verif/mutation/results.txt (or $MUT_OUT).
+# usage: mutmatrix.sh [file ...]   (default: all hand-written sources)
+# The go build cache grows by ~25 MB per mutant and is never trimmed by go itself: jobs run in chunks, the cache is emptied in between.
 mkdir -p /verif/mutation
-: > /tmp/mut_jobs.txt
-for f in cmd/compile.go cmd/format.go cmd/root.go cmd/lib.go internal/model/model.go internal/parser/common.go internal/parser/packet_dsl_parser.go internal/parser/packet_dsl_formattor.go internal/parser/go_generator.go internal/parser/java_generator.go internal/parser/py_generator.go internal/parser/rust_generator.go internal/parser/cpp_generator.go internal/parser/lua_wsp_generator.go; do
+OUT=${MUT_OUT:-/verif/mutation/results.txt}
+JOBS=$(mktemp /tmp/mut_jobs.XXXXXX)
+FILES="$*"
+[ -z "$FILES" ] && FILES="cmd/compile.go cmd/format.go cmd/root.go cmd/lib.go internal/model/model.go internal/parser/common.go internal/parser/packet_dsl_parser.go internal/parser/packet_dsl_formattor.go internal/parser/go_generator.go internal/parser/java_generator.go internal/parser/py_generator.go internal/parser/rust_generator.go internal/parser/cpp_generator.go internal/parser/lua_wsp_generator.go"
+for f in $FILES; do
   n=$(/verif/bin/mutate -file /repo/$f -list)
-  i=0; while [ $i -lt $n ]; do echo "$f $i" >> /tmp/mut_jobs.txt; i=$((i+1)); done
+  i=0; while [ $i -lt $n ]; do echo "$f $i" >> $JOBS; i=$((i+1)); done
 done
-wc -l /tmp/mut_jobs.txt
-xargs -P ${MUT_JOBS:-10} -L 1 /verif/tools/mutone.sh < /tmp/mut_jobs.txt > /verif/mutation/results.txt 2>/dev/null
-awk '{c[$3]++} END {for (k in c) print k, c[k]}' /verif/mutation/results.txt
+wc -l < $JOBS
+: > "$OUT"
+split -l ${MUT_CHUNK:-300} $JOBS $JOBS.part.
+for part in $JOBS.part.*; do
+  xargs -P ${MUT_JOBS:-10} -L 1 /verif/tools/mutone.sh < $part >> "$OUT" 2>/dev/null
+  go clean -cache >/dev/null 2>&1
+done
+rm -f $JOBS $JOBS.part.*
+awk '{c[$3]++} END {for (k in c) print k, c[k]}' "$OUT"
